@@ -124,7 +124,7 @@ func drawType(c *choice.Stream, depth int, top bool) string {
 	return Scalars[c.Draw("type.scalar", len(Scalars))]
 }
 
-var strLens = []int{0, 1, 2, 5, 127, 128, 129, 300}
+var strLens = []int{0, 1, 2, 5, 127, 128, 129, 300, 1023, 1024, 1025, 5000, 16383, 16384}
 
 func randBytes(r *rand.Rand, n int) string {
 	b := make([]byte, n)
@@ -139,6 +139,9 @@ func randString(r *rand.Rand) string {
 	switch r.UintN(10) {
 	case 0:
 		n = strLens[r.UintN(uint(len(strLens)))]
+		if n > 300 && r.UintN(3) != 0 {
+			n = strLens[r.UintN(8)] // the long ones stay rare
+		}
 	case 1:
 		n = int(r.UintN(40))
 	default:
